@@ -19,6 +19,9 @@ type Clause struct {
 	Label string
 	Src   string
 	E     Expr
+	// Trusted: an ensures clause of a verified function that is assumed at call sites but NOT checked against the body
+	// ("trusted ensures ..."): a summary of what other packages rely on, listed in the evidence as trusted
+	Trusted bool
 }
 
 type LoopSpec struct {
@@ -30,6 +33,11 @@ type LoopSpec struct {
 	// (loopN.fresh_write:<heap key>); in exchange the objects that existed at function entry keep their values across the
 	// loop (the standard inductive argument: "no pre-existing object was written so far" is itself a loop invariant).
 	FreshWrites bool
+	// loop frame ("modifies" inside a loop block): only these targets are havocked at the loop header; every back edge
+	// carries the obligation that nothing else (allocated before the iteration started) was changed by the body
+	HasModifies bool
+	Modifies    []Expr
+	ModSrc      []string
 }
 
 // CallSpec: per call-site annotations inside a function ("call F@1 invariant ...") – reserved.
@@ -51,6 +59,7 @@ type Contract struct {
 	HasModifies bool
 	Modifies    []Expr
 	ModSrc      []string
+	ModWhen     []Expr // parallel to Modifies: nil = unconditional; else the target may be modified only when the condition (over the entry state) holds
 	// panics: "" unspecified, "never", "only_if", "iff", "any"
 	PanicMode  string
 	PanicCond  Expr
@@ -63,6 +72,9 @@ type Contract struct {
 	// CallAsserts: "at call F@n assert [label] expr" — assertions over the function's own locals, checked right before
 	// the n-th (source order) call of F in this function; key "call:F@n"
 	CallAsserts map[string][]*Clause
+	// CallInvariants: "at call F@n invariant [label] expr" — invariant of the function value(s) the callee may run
+	// (`modifies effects(f)`): holds before the call, is preserved by one run of f, holds after the call
+	CallInvariants map[string][]*Clause
 	callSeen    map[string]bool
 	Props      map[string]bool // property ids mentioned by labels
 	Obj        *types.Func
@@ -74,6 +86,9 @@ type Contract struct {
 }
 
 type GhostFunc struct {
+	// Macro: the body is expanded at every use and evaluated in the state of the use site (so it may read the heap
+	// and ghost variables, and old(M(..)) is M in the pre-state); parameters keep the Go types of the arguments
+	Macro   bool
 	Name    string
 	Params  []QVar
 	Ret     *TypeExpr
@@ -107,6 +122,8 @@ type SpecDB struct {
 	ZeroInit  map[string]*zeroInit // type string -> fact about a freshly allocated object ("this")
 	zeroDecls []zeroDecl
 	Immutable map[string]bool // type strings whose referents are never modified (refs are values)
+	// Layered: ghost variables indexed (first key) by store layer; viewEq / viewEqOld / view(l) range over them
+	Layered []string
 	Errors    []string
 	Skipped   []string
 	Files     []string
@@ -137,7 +154,7 @@ func newSpecDB() *SpecDB {
 var labelRe = regexp.MustCompile(`^\[([A-Za-z0-9_.,\- ]+)\]`)
 
 var clauseKw = map[string]bool{"requires": true, "ensures": true, "modifies": true, "panics": true, "pure": true,
-	"assumed": true, "invariant": true, "decreases": true, "noinline": true, "at": true, "fresh_writes": true}
+	"assumed": true, "invariant": true, "decreases": true, "noinline": true, "trusted": true, "at": true, "fresh_writes": true}
 
 // parseSpecFile reads //@ lines of one file. pkgPath is the package whose scope resolves unqualified Go names
 // (for prelude files it is set by `//@ package "path"`).
@@ -163,7 +180,7 @@ func (db *SpecDB) parseSpecFile(file string, pkgPath string) {
 		s  string
 	}
 	var ents []ent
-	topKw := map[string]bool{"import": true, "package": true, "opaque": true, "immutable": true, "ghost": true, "axiom": true, "func": true, "loop": true, "zeroinit": true, "functype": true}
+	topKw := map[string]bool{"import": true, "package": true, "opaque": true, "immutable": true, "ghost": true, "axiom": true, "func": true, "loop": true, "zeroinit": true, "functype": true, "layered": true}
 	for i, raw := range lines {
 		l := strings.TrimSpace(raw)
 		var body string
@@ -244,6 +261,20 @@ func (db *SpecDB) parseSpecFile(file string, pkgPath string) {
 			} else {
 				db.Opaque = append(db.Opaque, opaqueDecl{T: &TypeExpr{Kind: "immutable", V: te}, PkgPath: pkgPath, Imports: copyMap(imports)})
 			}
+		case "layered":
+			// layered g1, g2, ... : these ghost variables are maps whose first key is a store layer
+			for _, n := range strings.Split(rest, ",") {
+				if n = strings.TrimSpace(n); n != "" {
+					dup := false
+					for _, x := range db.Layered {
+						dup = dup || x == n
+					}
+					if !dup {
+						db.Layered = append(db.Layered, n)
+					}
+				}
+			}
+			cur, curLoop = nil, nil
 		case "zeroinit":
 			// zeroinit T : expr-over-this
 			i := strings.Index(rest, ":")
@@ -277,13 +308,20 @@ func (db *SpecDB) parseSpecFile(file string, pkgPath string) {
 				if te.Kind == "map" && te.K != nil && (te.K.Kind == "ptr" || te.K.Name == "ref") {
 					refKeyedGhost["G|"+name] = true
 				}
-			case "func":
+			case "func", "macro":
 				g, err := parseGhostFunc(r2)
 				if err != nil {
 					errf(en.ln, "%v", err)
 					continue
 				}
 				g.File, g.PkgPath, g.Imports = file, pkgPath, copyMap(imports)
+				if w2 == "macro" {
+					g.Macro = true
+					if g.Body == nil {
+						errf(en.ln, "ghost macro %s needs a body", g.Name)
+						continue
+					}
+				}
 				if _, dup := db.Ghosts[g.Name]; dup {
 					errf(en.ln, "duplicate ghost func %s", g.Name)
 				}
@@ -306,7 +344,7 @@ func (db *SpecDB) parseSpecFile(file string, pkgPath string) {
 			db.Axioms = append(db.Axioms, &Axiom{strings.TrimSpace(rest[:i]), e, rest[i+1:], pkgPath, copyMap(imports)})
 			cur, curLoop = nil, nil
 		case "func", "functype":
-			c := &Contract{File: file, Line: en.ln, PkgPath: pkgPath, Imports: copyMap(imports), SigSrc: body, Loops: map[int]*LoopSpec{}, Props: map[string]bool{}, CallAsserts: map[string][]*Clause{}}
+			c := &Contract{File: file, Line: en.ln, PkgPath: pkgPath, Imports: copyMap(imports), SigSrc: body, Loops: map[int]*LoopSpec{}, Props: map[string]bool{}, CallAsserts: map[string][]*Clause{}, CallInvariants: map[string][]*Clause{}}
 			sigSrc := body
 			if w == "functype" {
 				// functype pkg.Name(params) results
@@ -343,16 +381,24 @@ func (db *SpecDB) parseSpecFile(file string, pkgPath string) {
 				continue
 			}
 			atSite := ""
+			atKind := ""
 			if w == "at" {
 				// at call F@n assert [label] expr
 				f := strings.Fields(rest)
-				if len(f) < 4 || f[0] != "call" || !strings.HasPrefix(f[2], "assert") {
-					errf(en.ln, "expected: at call <Callee>@<n> assert [label] <expr>")
+				if len(f) < 4 || f[0] != "call" || !(strings.HasPrefix(f[2], "assert") || strings.HasPrefix(f[2], "invariant")) {
+					errf(en.ln, "expected: at call <Callee>@<n> assert|invariant [label] <expr>")
 					continue
 				}
 				atSite = "call:" + f[1]
-				i := strings.Index(rest, "assert")
-				rest = strings.TrimSpace(rest[i+len("assert"):])
+				kw := "assert"
+				if strings.HasPrefix(f[2], "invariant") {
+					kw = "invariant"
+					atKind = "invariant"
+				} else {
+					atKind = "assert"
+				}
+				i := strings.Index(rest, kw)
+				rest = strings.TrimSpace(rest[i+len(kw):])
 			}
 			label := ""
 			if m := labelRe.FindStringSubmatch(rest); m != nil {
@@ -369,6 +415,22 @@ func (db *SpecDB) parseSpecFile(file string, pkgPath string) {
 					cur.Props[id] = true
 				}
 			}
+			trusted := false
+			if w == "trusted" {
+				// trusted ensures [label] expr
+				if firstWord(rest) != "ensures" {
+					errf(en.ln, "only ensures clauses can be marked trusted")
+					continue
+				}
+				trusted = true
+				w = "ensures"
+				rest = strings.TrimSpace(rest[len("ensures"):])
+				label = ""
+				if m := labelRe.FindStringSubmatch(rest); m != nil {
+					label = strings.TrimSpace(m[1])
+					rest = strings.TrimSpace(rest[len(m[0]):])
+				}
+			}
 			switch w {
 			case "at":
 				e, err := parseExpr(rest)
@@ -376,7 +438,11 @@ func (db *SpecDB) parseSpecFile(file string, pkgPath string) {
 					errf(en.ln, "%v", err)
 					continue
 				}
-				cur.CallAsserts[atSite] = append(cur.CallAsserts[atSite], &Clause{Kind: "assert", Label: label, Src: rest, E: e})
+				if atKind == "invariant" {
+					cur.CallInvariants[atSite] = append(cur.CallInvariants[atSite], &Clause{Kind: "invariant", Label: label, Src: rest, E: e})
+				} else {
+					cur.CallAsserts[atSite] = append(cur.CallAsserts[atSite], &Clause{Kind: "assert", Label: label, Src: rest, E: e})
+				}
 			case "pure":
 				cur.Pure = true
 			case "assumed":
@@ -390,9 +456,42 @@ func (db *SpecDB) parseSpecFile(file string, pkgPath string) {
 				}
 				curLoop.FreshWrites = true
 			case "modifies":
+				if curLoop != nil {
+					curLoop.HasModifies = true
+					if rest == "nothing" || rest == "" {
+						continue
+					}
+					es, err := parseExprList(rest)
+					if err != nil {
+						errf(en.ln, "%v", err)
+						continue
+					}
+					curLoop.Modifies = append(curLoop.Modifies, es...)
+					for _, e := range es {
+						curLoop.ModSrc = append(curLoop.ModSrc, exprString(e))
+					}
+					continue
+				}
 				cur.HasModifies = true
 				if rest == "nothing" || rest == "" {
 					continue
+				}
+				var when Expr
+				whenSrc := ""
+				if strings.HasPrefix(rest, "when ") {
+					// modifies when <cond> : target, target ...
+					i := strings.Index(rest, " : ")
+					if i < 0 {
+						errf(en.ln, "expected: modifies when <condition> : <targets>")
+						continue
+					}
+					we, err := parseExpr(rest[len("when "):i])
+					if err != nil {
+						errf(en.ln, "%v", err)
+						continue
+					}
+					when, whenSrc = we, " (when "+strings.TrimSpace(rest[len("when "):i])+")"
+					rest = strings.TrimSpace(rest[i+3:])
 				}
 				es, err := parseExprList(rest)
 				if err != nil {
@@ -401,7 +500,8 @@ func (db *SpecDB) parseSpecFile(file string, pkgPath string) {
 				}
 				cur.Modifies = append(cur.Modifies, es...)
 				for _, e := range es {
-					cur.ModSrc = append(cur.ModSrc, exprString(e))
+					cur.ModSrc = append(cur.ModSrc, exprString(e)+whenSrc)
+					cur.ModWhen = append(cur.ModWhen, when)
 				}
 			case "panics":
 				m := firstWord(rest)
@@ -426,7 +526,7 @@ func (db *SpecDB) parseSpecFile(file string, pkgPath string) {
 					errf(en.ln, "%v", err)
 					continue
 				}
-				cl := &Clause{Kind: w, Label: label, Src: rest, E: e}
+				cl := &Clause{Kind: w, Label: label, Src: rest, E: e, Trusted: trusted}
 				switch w {
 				case "requires":
 					cur.Requires = append(cur.Requires, cl)
@@ -690,7 +790,16 @@ func (db *SpecDB) resolveContracts(P *Program) {
 			db.Skipped = append(db.Skipped, fmt.Sprintf("%s:%d (package %s not loaded)", c.File, c.Line, c.PkgPath))
 			continue
 		}
-		if c.funcType != "" {
+		if c.funcType == "func" {
+			// unnamed function type: functype func(a A, b B) R — the contract of calls through plain func values of that type
+			sg, err := c.resolveUnnamedFuncType(P)
+			if err != nil {
+				db.Errors = append(db.Errors, fmt.Sprintf("%s:%d: %v", c.File, c.Line, err))
+				continue
+			}
+			sig = sg
+			c.Key = "dyncall:" + typeStr(sg)
+		} else if c.funcType != "" {
 			o, err := P.resolveNamed(c.funcType, c.PkgPath, c.Imports)
 			if err != nil {
 				db.Errors = append(db.Errors, fmt.Sprintf("%s:%d: %v", c.File, c.Line, err))
@@ -733,6 +842,43 @@ func (db *SpecDB) resolveContracts(P *Program) {
 		}
 		db.Contracts[c.Key] = c
 	}
+}
+
+func (c *Contract) resolveUnnamedFuncType(P *Program) (*types.Signature, error) {
+	f, err := goparser.ParseFile(token.NewFileSet(), "sig.go", "package p\nfunc functype"+c.SigSrc[strings.Index(c.SigSrc, "("):]+" {}\n", 0)
+	if err != nil {
+		return nil, fmt.Errorf("cannot parse functype signature: %v", err)
+	}
+	fd := f.Decls[0].(*ast.FuncDecl)
+	tuple := func(fl *ast.FieldList) (*types.Tuple, error) {
+		var vs []*types.Var
+		if fl == nil {
+			return types.NewTuple(), nil
+		}
+		for _, fld := range fl.List {
+			t, err := P.resolveASTType(fld.Type, c.PkgPath, c.Imports)
+			if err != nil {
+				return nil, err
+			}
+			n := len(fld.Names)
+			if n == 0 {
+				n = 1
+			}
+			for i := 0; i < n; i++ {
+				vs = append(vs, types.NewVar(token.NoPos, nil, "", t))
+			}
+		}
+		return types.NewTuple(vs...), nil
+	}
+	ps, err := tuple(fd.Type.Params)
+	if err != nil {
+		return nil, err
+	}
+	rs, err := tuple(fd.Type.Results)
+	if err != nil {
+		return nil, err
+	}
+	return types.NewSignatureType(nil, nil, nil, ps, rs, false), nil
 }
 
 func (c *Contract) resolveFunc(P *Program) (*types.Func, error) {
